@@ -148,6 +148,10 @@ func (srv *Srv) flush(req *SrvReq) {
 	_ = PackRflush(req.Rc)
 	conn.Lock()
 	r := conn.reqs[tag]
+	if r == req {
+		// a Tflush that names its own tag: whatever it could have flushed ran before it
+		r = nil
+	}
 	if r != nil {
 		req.flushreq = r.flushreq
 		r.flushreq = req
